@@ -3,8 +3,9 @@
 import ast
 import re
 
-from ..astutil import call_attr, call_recv, calls_in, const_value, norm, walk_own
+from ..astutil import call_attr, call_name, call_recv, calls_in, const_value, norm, walk_own
 from ..rustlite import RustFile
+from ..index import AnalysisError
 from ..selftest import Mutant
 
 ID = "C36"
@@ -33,6 +34,10 @@ R3 (K6/K10) URL segment-parameter keys written by urls.py:git_url_to_bzr_url equ
 Added while testing against seeded changes: Also: URL parameter values percent-encoded by the writer are decoded by
 the Rust reader; set_parent and get_parent use the same git config entries (section roles: remote resolver, branch
 name).
+Third round: R4a-path-codec-pair — encode_git_path / decode_git_path name the same constant codec and error handler (.encode/.decode,
+str()/bytes() or codecs.* with constant arguments); parent-config-read-fresh — TransportRepo.get_config / get_config_stack read
+the file on every call and keep no parsed copy on self. The R4/R5/identity tables are now fail-closed: when the abstract
+interpreter cannot evaluate the functions any more the run ends as ANALYSIS-ERROR instead of a silent "not decided".
 Does not decide: quoting of arbitrary bytes (urlutils).
 """
 
@@ -156,6 +161,22 @@ def run(ctx):
         ctx.check("R2-inverse-table", where, bool(gate), "unescape dispatches on the same escape character")
         ctx.check("R2-unknown-code-raises", where, any(isinstance(n, ast.Raise) for n in walk_own(fu)), "an unknown escape code raises")
 
+    # ---- R4a: the two path codecs are one codec written in both directions ----------------------------------------------
+    def _codec_of(fname, direction):
+        f_ = repo.func(MP, fname)
+        out = []
+        for c in calls_in(f_):
+            if call_attr(c) == direction and len(c.args) >= 1:
+                out.append(tuple(const_value(a, None) for a in c.args) + tuple(sorted((k.arg, const_value(k.value, None)) for k in c.keywords)))
+            if call_name(c) in ("str", "bytes", f"codecs.{direction}") and len(c.args) >= 2:
+                out.append(tuple(const_value(a, None) for a in c.args[1:]))
+        return f_, out
+
+    fe_, enc_ = _codec_of("encode_git_path", "encode")
+    fd_, dec_ = _codec_of("decode_git_path", "decode")
+    wcodec = f"{MP}:encode_git_path/decode_git_path"
+    ok_codec = len(enc_) == 1 and len(dec_) == 1 and enc_ == dec_ and all(isinstance(x, str) for x in enc_[0]) and len(enc_[0]) >= 1
+    ctx.check("R4a-path-codec-pair", wcodec, ok_codec, f"both directions name the same constant codec and error handler ({enc_[0] if enc_ else '?'})", construct=f"encode {enc_} / decode {dec_}", message=f"encode_git_path uses {enc_ or 'no constant codec'} and decode_git_path uses {dec_ or 'no constant codec (e.g. a locale-dependent decoder)'}: the two are no longer inverses for every path — a non-ASCII or non-UTF-8 path does not come back from parse_file_id(generate_file_id(p)), tree listings show mangled names under a non-UTF-8 locale")
     # ---- R4/R5: path <-> file id and git sha <-> revision id, decided by the same abstract evaluation ----------------
     from ..absint import Obj
 
@@ -197,7 +218,7 @@ def run(ctx):
             seen_ids[fid] = x
     except (Raised, Unsupported) as ex:
         ok45 = False
-        ctx.info("R4-fileid-roundtrip-table", wfid, f"not evaluable ({ex}); not decided on this run")
+        raise AnalysisError(f"{wfid}: not evaluable by the abstract interpreter ({ex}) — hand-confirmed evaluable on the pinned tree, so the rule cannot be decided on this one")
     if ok45:
         ctx.fact(len(paths))
         ctx.check("R4-fileid-roundtrip-table", wfid, not badp, f"parse_file_id(generate_file_id(p)) == p and the ids are distinct for {len(paths)} paths (root, escape characters, '/', a non-UTF-8 byte as surrogate, a non-ASCII letter)", construct=str(badp[:2]), message=f"paths do not survive the file-id mapping: {badp[:2]}")
@@ -229,7 +250,7 @@ def run(ctx):
         clash = [(a, b) for a in others for b in others if a < b and (others[a] + b":").startswith(others[b] + b":")]
     except (Raised, Unsupported) as ex:
         ok5 = False
-        ctx.info("R5-revid-roundtrip-table", wrid, f"not evaluable ({ex}); not decided on this run")
+        raise AnalysisError(f"{wrid}: not evaluable by the abstract interpreter ({ex}) — hand-confirmed evaluable on the pinned tree, so the rule cannot be decided on this one")
     if ok5:
         ctx.fact(len(prefixes) * len(shas))
         ctx.check("R5-revid-roundtrip-table", wrid, not badr and not clash, f"revision_id_bzr_to_foreign(revision_id_foreign_to_bzr(sha)) gives the sha back under every mapping prefix {sorted(p_.decode() for p_ in prefixes.values())}, and no prefix is a prefix of another", construct=str((badr[:2], clash)), message=f"git shas do not survive the revision-id mapping: {badr[:2]} {clash}")
@@ -360,9 +381,16 @@ def run(ctx):
     fpl = repo.func(GB, "GitBranch._get_parent_location")
     ctx.check("parent-config-keys", f"{GB}:GitBranch._get_parent_location", any(call_attr(c) == "_get_related_merge_branch" for c in calls_in(fpl)), "get_parent goes through _get_related_merge_branch")
     ctx.sample({"escape_rows": len(rows), "url_keys_written": sorted(wkeys), "url_keys_read": rkeys})
-
+    # the parent is read from the file each time: git has no lock on its config, other handles and git itself rewrite it
+    TG = "breezy/git/transportgit.py"
+    for fname in ("TransportRepo.get_config", "TransportRepo.get_config_stack"):
+        f_ = repo.func(TG, fname)
+        memo = sorted({norm(t) for a in walk_own(f_) if isinstance(a, (ast.Assign, ast.AugAssign)) for t in (a.targets if isinstance(a, ast.Assign) else [a.target]) if norm(t).startswith("self.")} | {norm(r_.value) for r_ in walk_own(f_) if isinstance(r_, ast.Return) and r_.value is not None and isinstance(r_.value, ast.Attribute) and norm(r_.value).startswith("self.")})
+        reads = any(call_attr(c) in ("get", "get_bytes") and "transport" in (call_recv(c) or "") for c in calls_in(f_)) or any(norm(c.func) == "self.get_config" for c in calls_in(f_))
+        ctx.check("parent-config-read-fresh", f"{TG}:{fname}", reads and not memo, f"{fname.split('.')[1]} reads the config file on every call and keeps no parsed copy on the repository object", construct=str(memo), message=f"{fname} keeps the parsed git configuration on the object ({memo}): a parent location written through another handle of the same branch, or by git itself, is never seen by this handle again (not even under a new lock) — the parent that was set is not what is read back")
 
 MUTANTS = [
+    Mutant("git paths decoded with the locale's codec", MP, '    return path.decode("utf-8", "surrogateescape")\n', '    import os\n\n    return os.fsdecode(path)\n', expect="R4a-path-codec-pair"),
     Mutant("parse_file_id forgets to unescape", MP, "        return decode_git_path(unescape_file_id(file_id[len(FILE_ID_PREFIX) :]))\n", "        return decode_git_path(file_id[len(FILE_ID_PREFIX) :])\n", expect="R4-fileid-roundtrip-table"),
     Mutant("revision id written with another separator", MP, "        return b\"%s:%s\" % (cls.revid_prefix, git_rev_id)\n", "        return b\"%s-%s\" % (cls.revid_prefix, git_rev_id)\n", expect="R5-revid-roundtrip-table"),
     Mutant("neutral: root id test written the other way round", MP, "        if path == b\"\":\n            return ROOT_ID\n", "        if not path:\n            return ROOT_ID\n", neutral=True),
